@@ -4,7 +4,7 @@ B3: TLC explores spec/Store.tla (runs with cleaning) and checks the action prope
     CleanWindowExact, CleanNamesExact (the declarative clauses of the statement against the implementation-shaped
     actions, which find dangling parents through the association table) and CleanAssocFrame.
 B2: stores mixing complete traces, traces with a dangling parent (direct / deep), traces before / after / straddling
-    the window, traces whose spans carry other workflow names, x time buffers x batch sizes are run through the real
+    the window, traces whose spans carry other workflow names, traces with two of these anomalies at once, x time buffers x batch sizes are run through the real
     otel_to_pv; the tables are read back after each of the three cleaning calls; TLC evaluates the C11 clauses on the
     observed tables and checks conformance to Store.tla.  Frame condition through the pipeline: every scenario in which
     traces were removed is run again without those traces (its twin) and TLC compares the PV sequences of the traces
@@ -36,8 +36,10 @@ def run(chk, tier, seed):
     cov = {"states": m["states"] + st.get("conf_states", 0) + st.get("obs_states", 0),
            "transitions": m["transitions"] + st.get("conf_generated", 0) + st.get("obs_generated", 0),
            "traces_validated_against_impl": n, "evaluations": n, "distinct_nontrivial": nontriv,
-           "rule": "every combination of 1..k of 9 trace templates (complete, dangling, deep dangling, early, late, "
-                   "straddling without/with a span inside, window edge, inconsistent names) x time buffers {0,1,2} x batch "
+           "rule": "every combination of 1..k of 12 trace templates (complete, dangling, deep dangling, early, late, "
+                   "straddling without/with a span inside, window edge, inconsistent names, and three with two anomalies in one "
+                   "trace: dangling + inconsistent names, outside + inconsistent names, outside + dangling; quick: these three "
+                   "alone and in pairs) x time buffers {0,1,2} x batch "
                    "sizes, spans interleaved by a seeded shuffle; twins = the same scenario without the removed traces; "
                    "non-trivial = at least two traces in the store",
            "model_runs": m["runs"], "model_drift_executions": ndrift, "conformance_action_counts": st.get("actions", {}),
